@@ -140,6 +140,53 @@ CreatePath(d, segs, t, v) == CreatePathT(d, segs, NewScalar(t, v))
 (***************************************************************************)
 AllScalars(d, ids) == \A j \in 1..Len(ids) : d[ids[j]].k = "s"
 SeqToSet(s) == {s[j] : j \in 1..Len(s)}
+
+(***************************************************************************)
+(* alias_nodes (processor.py:505-616, yaml-set --aliasof / --anchor): the  *)
+(* single node the anchor path selects is given an Anchor name - the one   *)
+(* supplied (it must be unused), else the one it has, else a generated one *)
+(* (Anchors.generate_unique_anchor_name: the Hash key it sits under, or    *)
+(* "id", plus 001, 002, ... when taken) - and every target becomes an      *)
+(* Alias of it.  The name is assigned BEFORE the targets are gathered, so  *)
+(* it stays when the target path then fails.  Scalar anchors only; beyond  *)
+(* the listed properties (agreement with the code is counted, see C03).    *)
+(***************************************************************************)
+AnchorNamesOf(d) == {d[i].anchor : i \in 1..Len(d)} \ {""}
+Pad3(n) == IF n < 10 THEN "00" \o NatStr(n) ELSE IF n < 100 THEN "0" \o NatStr(n) ELSE NatStr(n)
+RECURSIVE NumberedName(_, _, _)
+NumberedName(base, used, n) == IF (base \o Pad3(n)) \notin used THEN base \o Pad3(n) ELSE NumberedName(base, used, n + 1)
+GenAnchorName(d, a, used) ==
+  LET p == d[a].par pos == ChildPos(d, a)
+      base == IF p # 0 /\ d[p].k = "map" /\ d[p].keys[pos].t = "str" THEN d[p].keys[pos].v ELSE "id"
+  IN IF base # "id" /\ base \notin used THEN base ELSE NumberedName(base, used, 1)
+PlainName(s) == Len(s) > 0 /\ \A i \in 1..Len(s) : Ch(s, i) \in Uppers \cup {LowerOf[u] : u \in Uppers} \cup Digits \cup {"_"}
+RECURSIVE ReplaceAll(_, _, _, _)
+ReplaceAll(d, i, S, newtr) ==      \* the tree of d with every position of S replaced by newtr
+  IF i \in S THEN newtr
+  ELSE [TreeOf(d, i) EXCEPT !.kids = [j \in 1..Len(d[i].kids) |-> ReplaceAll(d, d[i].kids[j], S, newtr)]]
+AliasStep(d, e) ==
+  LET ra == Sel(d, e.asegs) aids == FlatIds(ra.res) rt == Sel(d, e.segs) tids == FlatIds(rt.res)
+      skip == [doc |-> d, out |-> "skip"] IN
+  IF ra.info \/ rt.info THEN skip
+  ELSE IF ra.err # "" THEN [doc |-> d, out |-> "yperr"]
+  ELSE IF Len(ra.res) = 0 THEN skip                       \* the code indexes an empty list here (IndexError): outside any reading
+  ELSE IF Len(ra.res) > 1 THEN [doc |-> d, out |-> "yperr"]
+  ELSE IF IsName(ra.res[1]) \/ IsVirt(ra.res[1]) THEN skip
+  ELSE LET a == aids[1] IN
+    IF d[a].k # "s" \/ d[a].t = "null" \/ a = Root \/ d[d[a].par].k = "set" THEN skip
+    ELSE LET used == AnchorNamesOf(d)
+             name == IF e.name # "" THEN e.name ELSE IF d[a].anchor # "" THEN d[a].anchor ELSE GenAnchorName(d, a, used)
+             grp == AliasGroup(d, a)
+             d1 == [i \in 1..Len(d) |-> IF i \in grp THEN [d[i] EXCEPT !.anchor = name] ELSE d[i]]
+         IN IF ~PlainName(name) THEN skip                  \* a generated name that is no legal Anchor name (key with punctuation)
+            ELSE IF e.name # "" /\ e.name \in used THEN [doc |-> d, out |-> "yperr"]
+            ELSE IF rt.err # "" THEN [doc |-> NormAliases(d1), out |-> "yperr"]
+            ELSE IF (\E j \in 1..Len(rt.res) : IsName(rt.res[j]) \/ IsVirt(rt.res[j])) THEN skip
+            ELSE IF Root \in SeqToSet(tids) \/ (\E t \in SeqToSet(tids) : IsUnder(d, a, t) /\ t # a) \/ (\E t \in SeqToSet(tids) : d[d[t].par].k = "set") THEN skip
+            ELSE [doc |-> TabOf(ReplaceAll(d1, Root, SeqToSet(tids) \ grp,
+                                           [NewScalar(d[a].t, d[a].v) EXCEPT !.anchor = name, !.isalias = TRUE])),
+                  out |-> "ok"]
+
 EStep(s, e) ==
   LET d == s.doc r == Sel(d, e.segs) ids == FlatIds(r.res) IN
   IF e.op = "set_must" THEN
@@ -162,6 +209,7 @@ EStep(s, e) ==
         (IF r.info \/ ~AllScalars(d, ids) THEN [doc |-> d, out |-> "skip"]
          ELSE [doc |-> SetScalars(d, SeqToSet(ids), e.t, e.v), out |-> "ok"])
      ELSE [doc |-> c.doc, out |-> "ok"])
+  ELSE IF e.op = "alias" THEN AliasStep(d, e)
   ELSE [doc |-> d, out |-> "ok"]      \* query / exists: reads never change the document (C09)
 
 (* ---- the frame predicates of C03 / C04 / C09, stated on model steps (checked by TLC in MC_Edit) ---- *)
